@@ -20,5 +20,23 @@ impl Dividers {
         self.p == 2 && self.r64 == 0
     }
     pub open spec fn wfa(&self) -> bool { self.wf() || self.wf2() }
+    /// a divider built for a prime >= 3 is the odd kind
+    pub proof fn lemma_wf_facts_a(&self)
+        requires self.wfa(), self.pv() != 2
+        ensures self.wf(), 3 <= self.pv() < 0x4000_0000, self.pv() % 2 == 1
+    {
+        self.lemma_wf_facts();
+    }
+    /// what other modules may know about a well-formed divider
+    pub proof fn lemma_wf_facts(&self)
+        requires self.wf()
+        ensures 3 <= self.pv() < 0x4000_0000, self.pv() % 2 == 1
+    {
+        lemma2_to64(); lemma_pow2_strictly_increases(self.s64 as nat + 1, 31);
+        assert(pow2(31) == 0x80000000) by { lemma2_to64_rest(); }
+        lemma_pow2_strictly_increases(self.s64 as nat + 1, 30 + 1);
+        if self.s64 < 29 { lemma_pow2_strictly_increases(self.s64 as nat + 1, 30); }
+        assert(pow2(30) == 0x40000000) by { lemma2_to64(); }
+    }
 }
 } // verus!
